@@ -16,6 +16,14 @@ TRUSTED = [
     "model by the theorem op_is_its_trace and to the code by the micro-step comparison of this check (statement kinds from rusqlite's trace "
     "hook on the tower's own connection + H2 labels + RPC kinds); CrashOps.restart: heights and indexes after a restart are those before the "
     "interrupted operation (the last known block is persisted only after a poll): ASSUMED for the index contents (C19 covers the index)",
+    "CrashReplay.v: replay equivalence of ONE BLOCK is a THEOREM at operation level (C03_replay_connect / _before): kill anywhere from before "
+    "the block up to (not including) the watcher's DELETE, restart, the block delivered again: tables equal up to the stamp of unconfirmed "
+    "trackers, under the consistency relation CrashReplay.consistent / replay_ok / rej_stable between the node's answers in the first attempt and "
+    "in the replay (same verdict, or acceptable-then-confirmed = -27; rejections stable: ASSUMED of the environment, it is the harness's "
+    "consistent-node mode); REFUTED with a kernel-evaluated witness for the recorded class (kill between sendrawtransaction and the tracker "
+    "INSERT, penalty confirmed while down); resubmission of add_appointment after a lost reply is idempotent (theorem), inside the charge/store "
+    "window and for register it is not (witnesses); a kill inside the responder's own statements, the responder over a completed block, "
+    "multi-block composition and polls with disconnections are NOT theorems (decided by the fault enumeration of this check)",
     "tools/translate_bootstrap.py: main.rs persists the bootstrap tip when none is stored; chain_monitor.rs persists on a better tip only",
     "the harness replicates main()'s bootstrap (tower key from the keys table, last known block or the node's best tip, components on the last 100 "
     "blocks below it, catch-up poll) because the binary's main cannot be called; the replicated steps follow the generated flags",
